@@ -593,7 +593,7 @@ func c13Sample(target string) c13SpinSample {
 		}
 		s.inCompare = strings.Contains(g, "ctlog.compareFile(")
 		head, _, _ := strings.Cut(g, "\n")
-		s.runnable = strings.Contains(head, "[running") || strings.Contains(head, "[runnable")
+		s.runnable = strings.Contains(head, "[running") || strings.Contains(head, "[runnable") || strings.Contains(head, "[syscall")
 		var fr []string
 		for _, l := range strings.Split(g, "\n")[1:] {
 			if strings.HasPrefix(l, "\t") || !strings.Contains(l, "(") {
@@ -647,6 +647,7 @@ func c13Sample(target string) c13SpinSample {
 const (
 	c13FirstSampleAfter = 150 * time.Millisecond
 	c13SampleEvery      = 60 * time.Millisecond
+	c13SpinSamples      = 5                 // consecutive samples without progress needed for a verdict
 	c13HardDeadline     = 150 * time.Second // harness gives up: inconclusive, never a violation
 )
 
@@ -654,6 +655,15 @@ const (
 // while consuming CPU: the goroutine is inside ctlog.compareFile and
 // running/runnable (not blocked) in both, the offset of the descriptor open on
 // the target did not move, and the process burned CPU time or issued reads.
+func c13AllNoProgress(h []c13SpinSample) bool {
+	for i := 1; i < len(h); i++ {
+		if !c13NoProgress(h[i-1], h[i]) {
+			return false
+		}
+	}
+	return true
+}
+
 func c13NoProgress(a, b c13SpinSample) bool {
 	if !(a.inCompare && b.inCompare && a.runnable && b.runnable && a.fd >= 0 && a.fd == b.fd && a.pos == b.pos) {
 		return false
@@ -663,7 +673,7 @@ func c13NoProgress(a, b c13SpinSample) bool {
 
 // c13Call runs one backend call in its own goroutine. It returns the call's
 // result, or a *c13Hang if the call did not return AND was confirmed to be
-// spinning without progress over three consecutive samples (see
+// spinning without progress over c13SpinSamples consecutive samples (see
 // c13NoProgress). Elapsed time alone never produces a verdict; a call that is
 // merely slow or blocked ends as inconclusive after c13HardDeadline. A
 // spinning goroutine cannot be stopped from outside (a zero-length os.File.Read
@@ -683,15 +693,15 @@ func c13Call(target string, f func() ([]byte, error)) (c13Ret, *c13Hang, error) 
 		}
 		s := c13Sample(target)
 		hist = append(hist, s)
-		if n := len(hist); n >= 3 && c13NoProgress(hist[n-3], hist[n-2]) && c13NoProgress(hist[n-2], hist[n-1]) {
-			a := hist[n-3]
+		if n := len(hist); n >= c13SpinSamples && c13AllNoProgress(hist[n-c13SpinSamples:]) {
+			a := hist[n-c13SpinSamples]
 			zr := ""
 			if s.zeroRead {
 				zr = "; the stack shows os.(*File).Read called with a zero-length buffer"
 			}
 			return c13Ret{}, &c13Hang{where: "ctlog.compareFile", evidence: fmt.Sprintf(
-				"3 stack samples over %v all running in [%s]; offset of fd %d on the object stayed at %d while the process burned %v of CPU and issued %d read system calls%s",
-				s.at.Sub(a.at).Round(time.Millisecond), s.frames, s.fd, s.pos, (s.cpu - a.cpu).Round(time.Millisecond), s.syscr-a.syscr, zr)}, nil
+				"%d stack samples over %v all running in [%s]; offset of fd %d on the object stayed at %d while the process burned %v of CPU and issued %d read system calls%s",
+				c13SpinSamples, s.at.Sub(a.at).Round(time.Millisecond), s.frames, s.fd, s.pos, (s.cpu - a.cpu).Round(time.Millisecond), s.syscr-a.syscr, zr)}, nil
 		}
 		if el := time.Since(start); el > c13HardDeadline {
 			return c13Ret{}, nil, fmt.Errorf("backend call still running after %v but not confirmed to be spinning (last stack: %s)", el.Round(time.Second), s.frames)
